@@ -76,8 +76,8 @@ def _matches(exp: str, got: str) -> bool:
 
 
 def _event(op: dict, res: str, used: str, obs: dict) -> dict:
-    return {"k": op["k"], "set": op["set"], "n": op["n"], "a": op["a"], "res": res,
-            "used": used, "eff": obs["eff"], "gate": obs["gate"]}
+    return {"k": op["k"], "set": op["set"], "n": op["n"], "a": op["a"], "res": res, "used": used,
+            "eff": {st: [W.show(r) for r in v] for st, v in obs["eff"].items()}, "gate": obs["gate"]}
 
 
 def _ov_to_init(state: dict, n: int) -> dict:
@@ -88,8 +88,9 @@ def _ov_to_init(state: dict, n: int) -> dict:
 
 def _compare(world: W.World, edge: dict, res: str, used: str, obs: dict, defaults: dict) -> str:
     """'' if the real observation equals the edge's projection, else what differs (text only)."""
-    op, to = edge["op"], edge["to"]
-    cur = to["cur"]
+    op = edge["op"]
+    to = op["exp"]
+    cur = edge["to"]["cur"]
     if not _matches(op["res"], res):
         return f"result {res!r}, spec {op['res']!r}"
     if op["k"] == "render" and used != op["used"]:
@@ -120,8 +121,8 @@ def replay_walk(task: dict) -> dict:
         init = _ov_to_init(first, world.n)
         events: list = []
         for i, edge in enumerate(walk):
-            op = dict(edge["op"])
-            op["a"] = W.unshow(op["a"])
+            op = {k: edge["op"][k] for k in ("k", "set", "n")}
+            op["a"] = W.unshow(edge["op"]["a"])
             last = i == len(walk) - 1
             res, used = world.do(op)
             obs = world.observe(render=(cur == "rm" or last), gate=(cur == "fs" or last))
@@ -139,7 +140,8 @@ def replay_walk(task: dict) -> dict:
             world.force({cur: init[cur]})
             out["resyncs"] += 1
             obs = world.observe(render=True, gate=True)
-            if _compare(world, {"op": {"res": "ok", "k": "sync"}, "to": edge["to"]}, "ok", "", obs, defaults):
+            if _compare(world, {"op": {"res": "ok", "k": "sync", "exp": edge["op"]["exp"]}, "to": edge["to"]},
+                        "ok", "", obs, defaults):
                 out["abandoned"] = True
                 break
     finally:
@@ -240,18 +242,23 @@ def _describe(t: dict, v: dict) -> str:
     if 0 < at <= len(t["ev"]):
         e = t["ev"][at - 1]
         st = v["set"] if v["set"] in e["eff"] else e["set"]
-        lines.append(f"  observed {W.LONG[st]} per node: {[W.show(r) for r in e['eff'][st]]}")
+        lines.append(f"  observed {W.LONG[st]} per node: {e['eff'][st]}")
         lines.append(f"  observed instantiation gate: {e['gate']}")
     return "\n".join(lines)
 
 
-def judge(rep: Report, traces: list[dict], name: str, origin: str, expect_fail: bool = False):
-    """Validate traces with TLC; report every non-ok verdict.  Returns the verdicts."""
+def validate(traces: list[dict], name: str):
+    """TLC-validate traces against Trace_StyleSettings (no reporting; usable from a thread)."""
     if not traces:
-        return []
-    verdicts, st, tr = tlc.validate_traces(
+        return [], 0, 0
+    return tlc.validate_traces(
         "Trace_StyleSettings", "Trace_StyleSettings.cfg", [_trace_json(t) for t in traces],
         batch=120, parallel=4, workers=2, timeout=600, name=name)
+
+
+def report(rep: Report, traces: list[dict], validated, origin: str, expect_fail: bool = False):
+    """Turn the verdicts of :func:`validate` into evidence counters and violations."""
+    verdicts, st, tr = validated
     rep.states += st
     rep.transitions += tr
     rep.traces_validated += len(traces)
@@ -270,6 +277,10 @@ def judge(rep: Report, traces: list[dict], name: str, origin: str, expect_fail: 
                 detail += f"\n  replay difference: {t['diff']}"
             rep.violation(sig, detail, _scenario(t, t.get("wseed", 0)))
     return verdicts
+
+
+def judge(rep: Report, traces: list[dict], name: str, origin: str, expect_fail: bool = False):
+    return report(rep, traces, validate(traces, name), origin, expect_fail)
 
 
 # ------------------------------------------------------------------ main
@@ -313,7 +324,7 @@ def main(rep: Report, replay: dict | None) -> None:
     stubs.install()
     pool = mp.get_context("fork").Pool(POOL)  # forked before any thread exists
     try:
-        with ThreadPoolExecutor(max_workers=2) as ex:
+        with ThreadPoolExecutor(max_workers=3) as ex:
             f_mc = ex.submit(
                 tlc.run, "StyleSettings",
                 "MC_StyleSettings_quick.cfg" if quick else "MC_StyleSettings.cfg",
@@ -337,6 +348,7 @@ def main(rep: Report, replay: dict | None) -> None:
             for t, task in zip(recorded, tasks):
                 t["wseed"] = task["wseed"]
             lap("record_histories")
+            f_hist = ex.submit(validate, recorded, "c20-c2s")
 
             # ---- spec -> code: replay every edge
             res_e = f_edges.result()
@@ -366,12 +378,14 @@ def main(rep: Report, replay: dict | None) -> None:
             # ---- canary: a tampered edge must be noticed by the replay
             tampered = json.loads(json.dumps(next(t for t in wtasks if t["walk"][0]["from"]["cur"] == "jq")))
             tampered["walk"] = tampered["walk"][:1]
-            tampered["walk"][0]["to"]["eff"][2] = "int:77"
+            tampered["walk"][0]["op"]["exp"]["eff"][2] = "int:77"
             if not pool.apply(replay_walk, (tampered,))["mismatches"]:
                 raise tlc.MachineryError("c20: the replay did not notice a tampered edge")
 
             res_mc = f_mc.result()
             lap("wait_model_check")
+            hist_validated = f_hist.result()
+            lap("wait_validate_histories")
     finally:
         pool.terminate()
         pool.join()
@@ -403,8 +417,7 @@ def main(rep: Report, replay: dict | None) -> None:
     lap("classify_replay_differences")
 
     # ---- recorded histories
-    verdicts = judge(rep, recorded, "c20-c2s", "code->spec history")
-    lap("validate_histories")
+    verdicts = report(rep, recorded, hist_validated, "code->spec history")
     for t in recorded:
         rep.distinct.add(("hist", t["fam"], tuple(t["par"]), json.dumps([(e["k"], e["set"], e["n"], W.show(e["a"])) for e in t["ev"]])))
     rep.extra["histories"] = {"recorded": len(recorded), "events": sum(v["events"] for v in verdicts),
@@ -416,7 +429,7 @@ def main(rep: Report, replay: dict | None) -> None:
     good = next((t for t, v in zip(recorded, verdicts) if v["verdict"] == "ok" and t["fam"] == "iterm2"), None)
     if good is not None:
         bad = json.loads(json.dumps(_trace_json(good)))
-        bad["ev"][-1]["eff"]["rf"][0] = W.rec("bool", 1 - bad["ev"][-1]["eff"]["rf"][0]["i"])
+        bad["ev"][-1]["eff"]["rf"][0] = "bool:0" if bad["ev"][-1]["eff"]["rf"][0] == "bool:1" else "bool:1"
         vs, _, _ = tlc.validate_traces("Trace_StyleSettings", "Trace_StyleSettings.cfg", [bad], workers=2,
                                        timeout=300, name="c20-canary")
         if vs[0]["verdict"] == "ok":
@@ -424,6 +437,7 @@ def main(rep: Report, replay: dict | None) -> None:
         rep.extra["canary"] = {"corrupted_trace_verdict": vs[0]["verdict"], "tampered_edge": "noticed"}
 
     w0 = walks[0]
-    rep.sample({"walk": [dict(e["op"]) for e in w0[:6]], "family": w0[0]["from"]["fam"]})
+    rep.sample({"walk": [{k: v for k, v in e["op"].items() if k != "exp"} for e in w0[:6]],
+                "family": w0[0]["from"]["fam"]})
     rep.sample({"history": _scenario(recorded[0], 0)["ops"][:6], "family": recorded[0]["fam"],
                 "par": recorded[0]["par"]})
